@@ -1,12 +1,53 @@
 /- Line-protocol driver for C17: runs the settings model and the pipeline model on the harness's inputs. -/
 import AriadneModel.Driver.Wire
 import AriadneModel.Model.Settings
+import AriadneModel.Model.SourceLoad
+import AriadneModel.Model.ConfigFile
 import AriadneModel.Model.Pipeline
 
 open Lean (Json)
-open Ariadne Ariadne.Wire Ariadne.Settings Ariadne.Pipeline
+open Ariadne Ariadne.Wire Ariadne.Settings Ariadne.SourceLoad Ariadne.Pipeline
 
 namespace C17Driver
+
+/-- TOML values on the wire (harness/c17.py `tv_enc`): `{"b": true}`, `{"i": 1}`, `{"f": "<repr>"}`,
+    `{"s": "text"}`, `{"l": [...]}`, `{"t": [[key, value], ...]}` -/
+partial def decTV (j : Json) : Except String TV := do
+  match j.getObjVal? "b" with
+  | .ok v => return .bool (← v.getBool?)
+  | .error _ => pure ()
+  match j.getObjVal? "i" with
+  | .ok v => return .int (← v.getInt?)
+  | .error _ => pure ()
+  match j.getObjVal? "f" with
+  | .ok v => return .float (← v.getStr?)
+  | .error _ => pure ()
+  match j.getObjVal? "s" with
+  | .ok v => return .str (← v.getStr?)
+  | .error _ => pure ()
+  match j.getObjVal? "l" with
+  | .ok v => return .list (← (← v.getArr?).toList.mapM decTV)
+  | .error _ => pure ()
+  match j.getObjVal? "t" with
+  | .ok v =>
+    let kvs ← (← v.getArr?).toList.mapM fun it => do
+      let pr ← it.getArr?
+      if h : pr.size = 2 then pure (← pr[0].getStr?, ← decTV pr[1]) else throw "tv: pair expected"
+    return .table kvs
+  | .error _ => throw "tv: unknown value"
+
+partial def encTV : TV → Json
+  | .bool b => Json.mkObj [("b", b)]
+  | .int i => Json.mkObj [("i", Json.num ⟨i, 0⟩)]
+  | .float r => Json.mkObj [("f", r)]
+  | .str s => Json.mkObj [("s", s)]
+  | .list xs => Json.mkObj [("l", Json.arr (xs.map encTV).toArray)]
+  | .table kvs => Json.mkObj [("t", Json.arr (kvs.map fun (k, v) => Json.arr #[.str k, encTV v]).toArray)]
+
+def decCfg (j : Json) (k : String) : Except String Dict := do
+  match ← decTV (← j.getObjVal? k) with
+  | .table kvs => pure kvs
+  | _ => throw "cfg: a table expected"
 
 def arrOf (j : Json) (k : String) : Except String (List Json) := do
   match j.getObjVal? k with
@@ -68,11 +109,19 @@ def optS : Option String → Json
 
 def encErr (e : ConfigError) : Json :=
   Json.mkObj [("cls", e.pyClass), ("msg", e.message), ("typed", e.typed),
-    ("missing", match e with | .missingFields ns => Json.arr (ns.map Json.str).toArray | _ => .null)]
+    ("missing", match e with
+      | .missingFields ns => Json.arr (ns.map Json.str).toArray
+      | .typeErrorAsMissing ns => Json.arr (ns.map Json.str).toArray
+      | _ => .null),
+    ("accidental", match e with | .typeErrorAsMissing _ => true | _ => false)]
+
+def optTV : Option TV → Json
+  | some v => encTV v
+  | none => .null
 
 def encScalar (s : ScalarData) : Json :=
-  Json.mkObj [("graphql_name", s.graphqlName), ("type_", s.type_), ("serialize", optS s.serialize),
-    ("parse", optS s.parse), ("import_", optS s.import_)]
+  Json.mkObj [("graphql_name", s.graphqlName), ("type_", encTV s.type_), ("serialize", optTV s.serialize),
+    ("parse", optTV s.parse), ("import_", optTV s.import_)]
 
 def encPairs (kvs : List (String × String)) : Json :=
   Json.arr (kvs.map fun (k, v) => Json.arr #[.str k, .str v]).toArray
@@ -80,30 +129,30 @@ def encPairs (kvs : List (String × String)) : Json :=
 def strs (xs : List String) : Json := Json.arr (xs.map Json.str).toArray
 
 def encBase (b : BaseSettings) : List (String × Json) :=
-  [("schema_path", b.schemaPath), ("remote_schema_url", b.remoteSchemaUrl),
-   ("remote_schema_headers", encPairs b.remoteSchemaHeaders),
-   ("remote_schema_verify_ssl", b.remoteSchemaVerifySsl),
-   ("enable_custom_operations", b.enableCustomOperations), ("plugins", strs b.plugins)]
+  [("schema_path", encTV b.schemaPath), ("remote_schema_url", encTV b.remoteSchemaUrl),
+   ("remote_schema_headers", encTV b.remoteSchemaHeaders),
+   ("remote_schema_verify_ssl", encTV b.remoteSchemaVerifySsl),
+   ("enable_custom_operations", encTV b.enableCustomOperations), ("plugins", encTV b.plugins)]
 
 def encClient (s : ClientSettings) : Json :=
   Json.mkObj (encBase s.toBaseSettings ++ ([
-     ("queries_path", s.queriesPath), ("target_package_name", s.targetPackageName),
-     ("target_package_path", s.targetPackagePath), ("client_name", s.clientName),
-     ("client_file_name", s.clientFileName), ("base_client_name", s.baseClientName),
-     ("base_client_file_path", s.baseClientFilePath), ("enums_module_name", s.enumsModuleName),
-     ("input_types_module_name", s.inputTypesModuleName), ("fragments_module_name", s.fragmentsModuleName),
-     ("include_comments", s.includeComments), ("convert_to_snake_case", s.convertToSnakeCase),
-     ("include_all_inputs", s.includeAllInputs), ("include_all_enums", s.includeAllEnums),
-     ("async_client", s.asyncClient), ("opentelemetry_client", s.opentelemetryClient),
-     ("files_to_include", strs s.filesToInclude),
+     ("queries_path", encTV s.queriesPath), ("target_package_name", encTV s.targetPackageName),
+     ("target_package_path", encTV s.targetPackagePath), ("client_name", encTV s.clientName),
+     ("client_file_name", encTV s.clientFileName), ("base_client_name", encTV s.baseClientName),
+     ("base_client_file_path", encTV s.baseClientFilePath), ("enums_module_name", encTV s.enumsModuleName),
+     ("input_types_module_name", encTV s.inputTypesModuleName), ("fragments_module_name", encTV s.fragmentsModuleName),
+     ("include_comments", encTV s.includeComments), ("convert_to_snake_case", encTV s.convertToSnakeCase),
+     ("include_all_inputs", encTV s.includeAllInputs), ("include_all_enums", encTV s.includeAllEnums),
+     ("async_client", encTV s.asyncClient), ("opentelemetry_client", encTV s.opentelemetryClient),
+     ("files_to_include", encTV s.filesToInclude),
      ("scalars", Json.arr (s.scalars.map encScalar).toArray)] : List (String × Json)))
 
 def encSchemaS (s : SchemaSettings) : Json :=
   Json.mkObj (encBase s.toBaseSettings ++ ([
-     ("target_file_path", s.targetFilePath), ("schema_variable_name", s.schemaVariableName),
-     ("type_map_variable_name", s.typeMapVariableName)] : List (String × Json)))
+     ("target_file_path", encTV s.targetFilePath), ("schema_variable_name", encTV s.schemaVariableName),
+     ("type_map_variable_name", encTV s.typeMapVariableName)] : List (String × Json)))
 
-def encRead {α : Type} (encOk : α → Json) (r : Read α) (cfg : J) : Json :=
+def encRead {α : Type} (encOk : α → Json) (r : Read α) (cfg : Dict) : Json :=
   Json.mkObj [
     ("result", match r.result with
       | .ok s => Json.mkObj [("ok", encOk s)]
@@ -125,11 +174,49 @@ def fieldErr (j : Json) (k : String) : Option PyErr :=
   | .ok v => decPyErr v
   | .error _ => none
 
+def decContent (j : Json) : Except String Content := do
+  match j.getObjVal? "text" with
+  | .ok v => pure (.text (← v.getStr?))
+  | .error _ => pure (.unreadable (← fieldStr j "unreadable"))
+
+partial def decNode (j : Json) : Except String FsNode := do
+  match j.getObjVal? "f" with
+  | .ok v =>
+    let a ← v.getArr?
+    if h : a.size = 2 then pure (.file (← a[0].getStr?) (← decContent a[1])) else throw "file node"
+  | .error _ =>
+    let a ← (← j.getObjVal? "d").getArr?
+    if h : a.size = 2 then pure (.dir (← a[0].getStr?) (← (← a[1].getArr?).toList.mapM decNode)) else throw "dir node"
+
+def decRoot (j : Json) : Except String Root := do
+  match j.getObjVal? "file" with
+  | .ok v =>
+    let a ← v.getArr?
+    if h : a.size = 2 then pure (.file (← a[0].getStr?) (← decContent a[1])) else throw "file root"
+  | .error _ =>
+    let a ← (← j.getObjVal? "dir").getArr?
+    if h : a.size = 2 then pure (.dir (← a[0].getStr?) (← (← a[1].getArr?).toList.mapM decNode)) else throw "dir root"
+
+/-- `{"root": ..., "parses": [[text, verdict], ...]}`: graphql-core's verdicts on the texts of the case.
+    A text the model asks about that the table does not list is an error of the harness, never a default. -/
 def decSource (j : Json) : Except String Source := do
-  let fs ← (← arrOf j "files").mapM fun it => do
+  let root ← match j.getObjVal? "root" with
+    | .ok v => decRoot v
+    | .error _ => pure (.dir "" [])
+  let table ← (← arrOf j "parses").mapM fun it => do
     let a ← it.getArr?
-    if h : a.size = 2 then pure (← a[0].getStr?, ← a[1].getBool?) else throw "file entry"
-  pure { files := fs }
+    if h : a.size = 2 then pure (← a[0].getStr?, ← a[1].getBool?) else throw "parses entry"
+  let parses : String → Bool := fun t => ((table.find? (·.1 == t)).map (·.2)).getD false
+  let asked : List String :=
+    (filesRead root).filterMap (fun pc => match pc.2 with | .text t => some t | .unreadable _ => none)
+    ++ (match loadText parses root with | .ok t => [t] | .error _ => [])
+  match asked.find? (fun t => !(table.any (·.1 == t))) with
+  | some t => throw s!"parse table lacks a verdict for a text of {t.length} characters"
+  | none => pure { root := root, parses := parses }
+
+def encLoadErr : LoadErr → Json
+  | .invalidSyntax f => Json.mkObj [("cls", "InvalidGraphqlSyntax"), ("msg", "Invalid graphql syntax in file " ++ f)]
+  | .raw c => Json.mkObj [("cls", c), ("msg", Json.null)]
 
 def decSchemaOracle (j : Json) : Except String SchemaOracle := do
   let src ← decSource j
@@ -144,8 +231,20 @@ def decSchemaOracle (j : Json) : Except String SchemaOracle := do
   pure { src := src, remote := remote, buildError := optStrOf j "buildError", trueErrors := natOf j "trueErrors" 0,
          hasQuery := boolOf j "hasQuery" true, hasMutation := boolOf j "hasMutation" false }
 
+def decLookup (kind : String) (cls : String) : PluginLookup :=
+  match kind with
+  | "module" => .module
+  | "classOk" => .classOk
+  | "noModule" => .noModule
+  | "noAttribute" => .noAttribute
+  | "notPlugin" => .notPlugin
+  | _ => .raises cls
+
 def decPlugins (j : Json) : Except String PluginsOracle := do
-  let res := (← arrOf j "resolve").map fun | .str s => some s | _ => none
+  let table ← (← arrOf j "lookup").mapM fun it => do
+    let a ← it.getArr?
+    if h : a.size = 3 then pure (← a[0].getStr?, decLookup (← a[1].getStr?) ((a[2].getStr?.toOption).getD ""))
+    else throw "lookup entry"
   let replaces : Option SchemaState :=
     match j.getObjVal? "replaces" with
     | .ok (.null) => none
@@ -154,7 +253,8 @@ def decPlugins (j : Json) : Except String PluginsOracle := do
              trueErrors := natOf r "trueErrors" 0, hasQuery := boolOf r "hasQuery" true,
              hasMutation := boolOf r "hasMutation" false }
     | .error _ => none
-  pure { resolve := res, replaces := replaces }
+  pure { lookup := fun s => ((table.find? (·.1 == s)).map (·.2)).getD (.raises "harness: plugin string not in the lookup table"),
+         replaces := replaces }
 
 def decQueries (j : Json) : Except String QueriesOracle := do
   let src ← decSource j
@@ -206,15 +306,43 @@ def handle (j : Json) : Except String Json := do
       | .error e => Json.mkObj [("err", e.message)])
   | "clientSettings" =>
     let env ← decEnv (← field j "env")
-    let cfg ← fieldJ j "cfg"
-    pure (encRead encClient (getClientSettings env cfg) cfg)
+    let cfg ← decCfg j "cfg"
+    pure ((encRead encClient (getClientSettings env cfg) cfg).setObjVal! "triggers"
+      (strs (if trigIllTypedInternal env cfg then ["illTypedOptionInternal"] else [])))
   | "schemaSettings" =>
     let env ← decEnv (← field j "env")
-    let cfg ← fieldJ j "cfg"
-    pure (encRead encSchemaS (getSchemaSettings env cfg) cfg)
+    let cfg ← decCfg j "cfg"
+    pure ((encRead encSchemaS (getSchemaSettings env cfg) cfg).setObjVal! "triggers"
+      (strs (if trigIllTypedInternalS env cfg then ["illTypedOptionInternal"] else [])))
+  | "pyval" =>
+    let v ← decTV (← field j "v")
+    pure (Json.mkObj [("truthy", v.truthy), ("str", v.pyStr), ("repr", v.pyRepr),
+      ("boolKey", match v.boolKey with | none => Json.str "TypeError" | some none => Json.str "KeyError" | some (some b) => Json.bool b),
+      ("iter", match v.pyIter with | none => Json.null | some xs => Json.arr (xs.map encTV).toArray),
+      ("hasCodegen", match v.containsStr "ariadne-codegen" with | none => Json.null | some b => Json.bool b)])
+  | "loadSource" =>
+    let src ← decSource (← field j "source")
+    pure (Json.mkObj [
+      ("files", Json.arr ((filesRead src.root).map fun pc => Json.str pc.1).toArray),
+      ("result", match loadDocument src.parses src.root with
+        | .ok t => Json.mkObj [("ok", t)]
+        | .error e => Json.mkObj [("err", encLoadErr e)])])
+  | "configFile" =>
+    let cwd ← (← arrOf j "cwd").mapM (·.getStr?)
+    let file ← fieldStr j "file"
+    let existing ← (← arrOf j "existing").mapM (·.getStr?)
+    pure (match ConfigFile.getConfigFilePath (fun p => existing.contains p) cwd file with
+      | .path p => Json.mkObj [("path", p)]
+      | .notFound m => Json.mkObj [("notFound", m)])
+  | "plugin" =>
+    let s ← fieldStr j "s"
+    let look := decLookup (← fieldStr j "kind") ((optStrOf j "cls").getD "")
+    pure (match resolvePlugin (fun _ => look) s with
+      | .ok () => Json.mkObj [("ok", true)]
+      | .error e => Json.mkObj [("cls", e.cls), ("msg", e.msg)])
   | "client" =>
     let env ← decEnv (← field j "env")
-    let cfg ← fieldJ j "cfg"
+    let cfg ← decCfg j "cfg"
     let schema ← decSchemaOracle (← field j "schema")
     let plugins ← decPlugins (← field j "plugins")
     let queries ← decQueries (← field j "queries")
@@ -228,7 +356,7 @@ def handle (j : Json) : Except String Json := do
     pure ((encOutcome (client run)).setObjVal! "triggers" (strs (clientTriggers run)))
   | "graphqlSchema" =>
     let env ← decEnv (← field j "env")
-    let cfg ← fieldJ j "cfg"
+    let cfg ← decCfg j "cfg"
     let schema ← decSchemaOracle (← field j "schema")
     let plugins ← decPlugins (← field j "plugins")
     let run : SchemaRun := { env := env, cfg := cfg, schema := schema, plugins := plugins,
